@@ -50,6 +50,8 @@ FIELD_RANGES = {}
 
 # return-range summaries of analysed functions, filled by retsum.register(): callee path -> (lo, hi)
 RET_RANGES = {}
+# function path -> entry facts established at every call site (argsum.py); swapped in per Facts object by the census
+PARAM_INFO = {}
 
 # ADT facts (enum discriminant values), filled by callers that have a Facts object: path -> [values]
 ADT_DISCRS = {}
@@ -238,6 +240,7 @@ class Intervals:
         self.term_field = {}     # memory term -> (adt, field) of its last projection
         self.converged = True
         self.used_steps_assumption = False
+        self.used_param_info = False
         self._counter_cache = {}
         self._place_cache = {}
         self._ptr_cache = {}
@@ -1617,6 +1620,20 @@ class Intervals:
         init = State()
         for i, r in self.param_ranges.items():
             init.iv[i] = r
+        pi = PARAM_INFO.get(body.path)
+        if pi:
+            self.used_param_info = True
+            for i, r in pi.get("ranges", {}).items():
+                cur = init.iv.get(i)
+                init.iv[i] = r if cur is None or not (cur[0] <= r[1] and cur[1] >= r[0]) else clamp_to(r, cur)
+            for j, lo in pi.get("lenlo", {}).items():
+                lt = self.len_term(["c", [j, []]])
+                if lt is not None:
+                    init.iv[lt] = (lo, ISIZE_MAX)
+            for (a, o, b) in pi.get("rels", []):
+                tb = b if isinstance(b, int) else self.len_term(["c", [b[1], []]])
+                if tb is not None:
+                    self.add_rel(init, a, o, tb)
         self.in_states[0] = init
         work = [0]
         steps = 0
